@@ -16,7 +16,7 @@ Tie         : the encoders are unexported, so a driver (hooks/wasmenc/main.go, v
 Search      : an input whose implementation bytes do not decode back to it is a genuine VIOLATION (the one of
               smallest magnitude / length per kind is reported); bytes that decode correctly but differ from the
               port are reported with no-failing-input-found (model drift, e.g. a non-minimal encoding)."""
-import os, sys, json, hashlib, subprocess, re, time
+import os, sys, json, hashlib, subprocess, re, time, random
 import common
 
 NAME = "wasmenc"
@@ -207,7 +207,9 @@ def locals_cases(rng, quick):
     return cs
 
 def gen_cases(run):
-    rng = run.rng
+    # seeded like run.rng (property id + VERIF_SEED) but a stream of its own: calling this stage must not shift the
+    # program stream that harness/c02.py draws from run.rng (its corpus / known-finding keys are program hashes)
+    rng = random.Random("%s/wasmenc/%d" % (run.pid, run.seed))
     quick = run.tier == "quick"
     m = 1 if quick else 25
     cases = []                                    # (kind, input)
@@ -236,15 +238,28 @@ def request(kind, inp):
 def coq_runs(runs):
     return "[" + "; ".join("(%d, %d)" % (c, t) for c, t in runs if c) + "]"
 
+def blocks(b):
+    """bytes -> [(count, block bytes)]: greedy detection of repeated blocks of period 1..4 (covers long runs and the
+    alternating group patterns of encodeLocals); everything else becomes literal blocks with count 1"""
+    out = []; lit = bytearray(); i = 0; n = len(b)
+    while i < n:
+        best = None
+        for p in (1, 2, 3, 4):
+            if i + 2 * p > n or b[i + p:i + 2 * p] != b[i:i + p]: continue
+            blk = b[i:i + p]; k = 2
+            while b[i + k * p:i + (k + 1) * p] == blk: k += 1
+            if k * p >= 12 and (best is None or k * p > best[0] * best[1]): best = (k, p)
+        if best:
+            if lit: out.append((1, bytes(lit))); lit = bytearray()
+            out.append((best[0], b[i:i + best[1]])); i += best[0] * best[1]
+        else:
+            lit.append(b[i]); i += 1
+    if lit: out.append((1, bytes(lit)))
+    return out
+
 def coq_obs(b):
-    """observed bytes: plain list when short, run-length encoded when long"""
-    if len(b) <= 24:
-        return "B [" + "; ".join(str(x) for x in b) + "]"
-    runs = []
-    for x in b:
-        if runs and runs[-1][1] == x: runs[-1][0] += 1
-        else: runs.append([1, x])
-    return coq_runs(runs)
+    """observed bytes as repeated blocks (Models/WasmEnc.v expand_blocks)"""
+    return "[" + "; ".join("(%d, [%s])" % (c, "; ".join(str(x) for x in blk)) for c, blk in blocks(b)) + "]"
 
 def coq_case(kind, inp):
     if kind == "u32": return "CU32 (%d)" % inp
@@ -259,7 +274,6 @@ HEADER = """From Coq Require Import ZArith List.
 Import ListNotations.
 Open Scope Z_scope.
 From FV Require Import Models.WasmEnc.
-Definition B (l : list Z) : list (Z * Z) := map (fun b => (1, b)) l.
 Definition cases : list enc_row := [
 """
 
@@ -369,17 +383,16 @@ def stage(run):
         if kind in ("u32", "s32", "s64"): run.count("enc:%s:%d-byte" % (kind, len(b)))
 
     # model comparison + the specification decoders of the Coq development on the observed bytes
-    def literal_size(r):                           # number of run pairs in the Coq literal of this row
+    def literal_size(r):                           # characters of the Coq literal of this row
         _, kind, x, b = r
-        n = sum(1 for j in range(1, len(b)) if b[j] != b[j - 1]) + 1
-        return n + (len(x[1]) if kind == "sec" else len(x) if kind in ("loc", "str") else 0)
+        return len(coq_case(kind, x)) + len(coq_obs(b))
     shards = []; cur = []; cost = 0; fragile = set()
     for r in rows:
         ls = literal_size(r)
-        if ls > 100000:                            # (a broken encoder can produce megabytes) python oracle only
+        if ls > 1500000:                           # (a broken encoder can produce megabytes) python oracle only
             run.count("enc:python-oracle-only(literal too large for coqc)")
             continue
-        if ls > 3000:                              # its own coqc run; a parser stack overflow there is not a verdict
+        if ls > 40000:                             # its own coqc run; a parser stack overflow there is not a verdict
             fragile.add(len(shards)); shards.append([r]); continue
         c = 1 + (_weight(r[1], r[2])[0] // 400 if r[1] in ("loc", "str", "sec") else 0)
         if cur and cost + c > 1200: shards.append(cur); cur = []; cost = 0
